@@ -217,6 +217,16 @@ func (fr *Frame) applyContract(st *State, site ssa.Instruction, c *Contract, fn 
 	for _, g := range c.Ghosts {
 		se2.ghostLocal[g.Name] = F.Fresh("g!"+fn.Name()+"!"+g.Name, SInt)
 	}
+	for _, g := range c.GhostFinal {
+		if _, ok := se2.ghostLocal[g.Name]; !ok {
+			se2.ghostLocal[g.Name] = F.Fresh("g!"+fn.Name()+"!"+g.Name, SInt)
+		}
+	}
+	if fr.top {
+		for n, t := range se2.ghostLocal {
+			st.ghosts[fn.Name()+"_"+n] = t
+		}
+	}
 	for _, e := range c.Ensures {
 		st.pc = F.And(st.pc, se2.evalBool(e.E))
 	}
